@@ -81,39 +81,39 @@ var realEngine = []string{"uci.UciHandler.Loop and all command handlers", "searc
 var stubEnv = []string{"GUI / match manager (harness)", "stdin/stdout (in-memory line transport)", "wall clock (testing/synctest fake clock)", "goroutine scheduling (tie-free fake-time slots decide every wake-up)"}
 
 var plans = map[string]Plan{
-	"C12": {Level: "exploration", Runs: [2]int{1600, 40000}, RaceRuns: [2]int{0, 0}, Batch: 50, DesignRef: "5/C12",
+	"C12": {Level: "exploration", Runs: [2]int{1600, 150000}, RaceRuns: [2]int{0, 0}, Batch: 50, DesignRef: "5/C12",
 		Rule: "one evaluation = one simulated UCI session (3-8 searches, seeded commands and fake-time gaps, option swarm, stalls). distinct = distinct interleaving signatures (hash of the sequence of (command kind, search phase at arrival in {idle,<5ms after end,iteration 1,2-3,deeper,busy wait}, live timer count)); non-trivial = at least one fault kind fired in the run",
 		Real: realEngine, Stub: stubEnv,
 		Assume: []string{"rules model (independent chess implementation, validated against published perft counts) is correct", "statement-level interleavings inside one controller call are not scheduled (slot atomicity)"}},
-	"C05": {Level: "exploration", Runs: [2]int{1600, 40000}, Batch: 50, DesignRef: "5/C05",
+	"C05": {Level: "exploration", Runs: [2]int{1600, 150000}, Batch: 50, DesignRef: "5/C05",
 		Rule: "one evaluation = one simulated UCI session with 5-10 searches on one engine (warm hash/history tables), all limit modes, stop/time-out at seeded fake instants, option + configuration swarm. distinct = distinct interleaving signatures; non-trivial = at least one fault kind fired",
 		Real: realEngine, Stub: stubEnv,
 		Assume: []string{"rules model is correct", "roots that are already draws by the fifty-move rule or third occurrence are outside the quantifier (narrow reading)"}},
-	"C13": {Level: "exploration", Runs: [2]int{1200, 30000}, Batch: 50, DesignRef: "5/C13",
+	"C13": {Level: "exploration", Runs: [2]int{1200, 60000}, Batch: 50, DesignRef: "5/C13",
 		Rule: "one evaluation = one simulated session or clocked game on the fake clock; distinct = distinct interleaving signatures; non-trivial = a time-out fired mid-search or a limit oracle had a sample",
 		Real: realEngine, Stub: stubEnv,
 		Assume: []string{"scheduling allowance 10 fake ms; stop-check cost <= 10us in deadline runs; no stalls"}},
-	"C14": {Level: "exploration", Runs: [2]int{1600, 40000}, RaceRuns: [2]int{160, 4000}, Batch: 50, DesignRef: "5/C14",
+	"C14": {Level: "exploration", Runs: [2]int{1600, 100000}, RaceRuns: [2]int{160, 8000}, Batch: 50, DesignRef: "5/C14",
 		Rule: "one evaluation = one simulated lifecycle-call sequence (3 of 4 at Search API level with the harness as UCI driver, 1 of 4 through UCI text), run on the plain build and (a subset) on the -race build inside the simulator; distinct = distinct interleaving signatures (call kind, search phase at arrival, live timer count); non-trivial = at least one fault kind fired (call at a 'wrong' time, cancellation of a running search, time-out mid-search, start within 5 ms of a result, stall)",
 		Real: realEngine, Stub: append([]string{"API controller (harness goroutine issuing real lifecycle calls)", "UCI driver interface (harness records results)"}, stubEnv...),
 		Assume: []string{"race detection is happens-before based (Go race detector) on the simulated schedule; harness code on engine goroutines is //go:norace and free of synchronisation", "slot atomicity of one controller call"}},
-	"C16": {Level: "exploration", Runs: [2]int{1600, 40000}, Batch: 50, DesignRef: "5/C16",
+	"C16": {Level: "exploration", Runs: [2]int{1600, 150000}, Batch: 50, DesignRef: "5/C16",
 		Rule: "one evaluation = one simulated UCI session in which each command line is passed through intact or damaged in flight (truncate/drop/duplicate/swap tokens, numeric extremes, junk tokens, whitespace and control bytes, blank and over-long lines, corrupted FEN payloads, unreadable moves), followed by isready probes and a valid recovery position/go; plus direct FEN parsing of every generated payload. distinct = distinct (interleaving signature); non-trivial = at least one damaged line was delivered",
 		Real: realEngine, Stub: stubEnv,
 		Assume: []string{"after a position command that is valid up to an illegal move either the previous position or start + legal prefix is accepted", "Hash values that would allocate gigabytes are not generated (sandbox has no memory limit)"}},
-	"C11": {Level: "exploration", Runs: [2]int{4000, 400000}, RaceRuns: [2]int{200, 4000}, Batch: 250, DesignRef: "5/C11",
+	"C11": {Level: "exploration", Runs: [2]int{4000, 1000000}, RaceRuns: [2]int{200, 10000}, Batch: 250, DesignRef: "5/C11",
 		Rule: "one evaluation = one seeded operation history (10-200 Put/Probe/GetEntry/AgeEntries/Clear/Resize operations, keys built to collide in the index bits at every capacity, values over the whole storable range incl. mate scores, MoveNone, depths with ties) executed by two actor goroutines against the real table (real ageing workers) and checked operation by operation against a reference store; distinct = distinct hashes of the abstract model state sequence; non-trivial = at least one index collision between different keys occurred",
 		Real: []string{"transpositiontable.TtTable (Put, Probe, GetEntry, AgeEntries with its 32 worker goroutines, Clear, Resize, Len, Hashfull, String)"}, Stub: []string{"search and controller (harness actor goroutines, hand-over like the engine's lifecycle lock)"},
 		Assume: []string{"key 0 (the table's own empty-slot marker) and size 0 are not generated", "equal-depth replacement after ageing and probing: either outcome accepted (the statement does not say how probes interact with ageing)"}},
-	"C19": {Level: "exploration", Runs: [2]int{800, 20000}, RaceRuns: [2]int{60, 1500}, Batch: 25, DesignRef: "5/C19",
+	"C19": {Level: "exploration", Runs: [2]int{800, 50000}, RaceRuns: [2]int{60, 3000}, Batch: 25, DesignRef: "5/C19",
 		Rule: "one evaluation = one seeded game collection (shared prefixes, transpositions, duplicate games, illegal moves mid-line, promotions) written as Simple, SAN and PGN (tags, comments, NAGs, nested variations, results, wrapped lines) and built 2-4 times per format under seeded schedules that decide the order of every acquisition of the book lock; distinct = distinct lock-grant orders (hash); non-trivial = more than one build",
 		Real: []string{"openingbook.Book (Initialize, file reading, format processing, per-line worker goroutines, addToBook under the book lock)", "movegen (move parsing from UCI/SAN)", "position"}, Stub: []string{"goroutine scheduling of the build workers (every lock acquisition is a seeded fake-time slot)", "book source files (generated by the harness from rules-model games)"},
 		Assume: []string{"position identity uses the engine's own position key (DoMove/Zobrist are the trusted base here; C02/C04 are not claimed)", "which parent links to a transposed position is schedule dependent and is not compared"}},
-	"C20": {Level: "fault_enumeration", Runs: [2]int{400, 10000}, Batch: 20, DesignRef: "5/C20",
+	"C20": {Level: "fault_enumeration", Runs: [2]int{300, 8000}, Batch: 20, DesignRef: "5/C20",
 		Rule: "one evaluation = one seeded book: built from source, saved to its cache, then re-initialised from every damaged state of the cache file (every byte prefix of the written file for small books, bit flips, garbage, empty, missing, directory in place, appended bytes, zeroed ranges), twice per state in the same process; distinct = distinct (cache length, damage kind, offset) sets; non-trivial = at least one damaged state was installed",
 		Real: []string{"openingbook.Book Initialize / loadFromCache / saveToCache with encoding/gob", "real files in a per-run temporary directory"}, Stub: []string{"crash while writing the cache (simulated by installing every prefix of the complete file)"},
 		Assume: []string{"a damaged cache that still decodes (e.g. a flipped counter bit) is outside the statement: only termination/no panic is required there", "no file-system seam exists in the engine, so I/O errors during read/write cannot be injected; the states a crash leaves behind are enumerated instead", "deadlock = book lock held continuously for 3 s of wall time while Initialize has not returned"}},
-	"C07": {Level: "exploration", Runs: [2]int{1200, 30000}, Batch: 50, DesignRef: "5/C07",
+	"C07": {Level: "exploration", Runs: [2]int{1200, 120000}, Batch: 50, DesignRef: "5/C07",
 		Rule: "one evaluation = one simulated session with the terminal-node monitor on; distinct = distinct (interleaving signature); non-trivial = at least one mate/stalemate classification was checked against the rules model",
 		Real: realEngine, Stub: stubEnv,
 		Assume: []string{"rules model is correct"}},
